@@ -184,6 +184,7 @@ def run_scenario(sc):
     twin_rejected = bool(sc.get("twin_rejected"))     # the code filter admits the traced module but not its byte-identical twin
     acts, chosen = build_actions(sc["hist"], rng, env, sc.get("rich"), admit, sc.get("force"), twin_rejected)
     targets = {n: t["maker_f"] for n, t in env["targets"].items()}
+    env["M"].LateKls = None          # the late-bound class starts every scenario unbound
     S.reset(acts, targets, absmodel.abs_value)
     reg = env["reg"] if admit is None else {c: (n, w and n.split(":")[-1] in admit, m) for c, (n, w, m) in env["reg"].items()}
     if twin_rejected:
